@@ -167,6 +167,8 @@ pub fn run(t: &[&str]) -> String {
     match t {
         ["spl", k, seg, threads, cs] => answer(k, seg, threads, cs),
         ["pair", _tag, k, seg, t1, t2, cs1, cs2] => format!("{} | {}", answer(k, seg, t1, cs1), answer(k, seg, t2, cs2)),
+        // a large reference under two thread counts (not run through the Coq model: see checks/c11.py big_case)
+        ["big", k, seg, t1, t2, cs] => format!("{} | {}", answer(k, seg, t1, cs), answer(k, seg, t2, cs)),
         ["rns", vb, vals] => {
             let vb: usize = vb.parse().unwrap();
             let v: Vec<u64> =
